@@ -1,4 +1,4 @@
-CONSTANTS DocLen = 2  MaxDecls = 2  MaxFiles = 2  NRuns = 3  Sizes = {65535, 65536, 100000, 1048576}  Bug = ""  Emit = TRUE
+CONSTANTS DocLen = 2  MaxDecls = 2  MaxFiles = 2  NRuns = 3  Sizes = {4095, 4096, 65535, 65536, 100000, 1048576}  Bug = ""  Emit = TRUE
 INIT Init
 NEXT Next
 INVARIANT NoMismatch
